@@ -1147,3 +1147,153 @@ func ruleR13_9(w *World, r *Report) {
 		r.Unk("R13.9", "OPB term reader", "-", "no method of Problem returning ([]int, []int, error)")
 	}
 }
+
+// ---------- R7.3: every success return of an extraction method rests on evidence of unsatisfiability ----------
+
+func ruleR7_3(w *World, r *Report) {
+	r.Rule("R7.3", "every return of (problem, nil) from an unsatisfiable-subset / MUS method of explain.Problem is justified: under a solver status found equal to Unsat, under a minimisation that returned -1, under a certificate found valid, after a deletion loop that re-solves for every candidate clause of a subset obtained without error, or it hands on the result of another such method", 5)
+	unsatK, _ := w.statusConst("Unsat")
+	fam := map[*ssa.Function]bool{}
+	for _, fn := range w.Fns {
+		if w.PkgName(fn) != "explain" || fn.Signature.Recv() == nil || fn.Signature.Params().Len() != 0 {
+			continue
+		}
+		res := fn.Signature.Results()
+		if res.Len() == 2 && typeShort(res.At(0).Type()) == "*explain.Problem" && isErrorType(res.At(1).Type()) {
+			fam[fn] = true
+		}
+	}
+	if len(fam) == 0 {
+		r.Unk("R7.3", "extraction methods", "-", "no method of explain.Problem returning (*Problem, error)")
+		return
+	}
+	evidence := func(fn *ssa.Function, b *ssa.BasicBlock) string {
+		for _, ec := range dominatingConds(b) {
+			cond, pos := ec.Cond, ec.True
+			for {
+				u, ok := cond.(*ssa.UnOp)
+				if !ok || u.Op != token.NOT {
+					break
+				}
+				cond, pos = u.X, !pos
+			}
+			switch x := cond.(type) {
+			case *ssa.BinOp:
+				if x.Op != token.EQL && x.Op != token.NEQ {
+					continue
+				}
+				eq := (x.Op == token.EQL) == pos
+				if !eq {
+					continue
+				}
+				if k, ok := constInt(x.Y); ok {
+					if typeShort(x.X.Type()) == "solver.Status" && k == unsatK {
+						return "a solver status equal to Unsat"
+					}
+					if c, isC := x.X.(*ssa.Call); isC && k == -1 && strings.HasSuffix(w.calleeName(&c.Call), ".Minimize") {
+						return "a minimisation that found no model"
+					}
+				}
+			case *ssa.Extract:
+				if pos && typeShort(x.Type()) == "bool" {
+					if c, isC := x.Tuple.(*ssa.Call); isC && x.Index == 0 {
+						for _, callee := range w.Callees[c] {
+							if w.PkgName(callee) == "explain" {
+								return "a certificate found valid"
+							}
+						}
+					}
+				}
+			}
+		}
+		return ""
+	}
+	var names []*ssa.Function
+	for fn := range fam {
+		names = append(names, fn)
+	}
+	sort.Slice(names, func(i, j int) bool { return w.FuncName(names[i]) < w.FuncName(names[j]) })
+	for _, fn := range names {
+		k := 0
+		allInstrs(fn, func(ins ssa.Instruction) {
+			ret, ok := ins.(*ssa.Return)
+			if !ok || len(ret.Results) != 2 {
+				return
+			}
+			if e, isK := ret.Results[1].(*ssa.Const); !isK || !e.IsNil() {
+				// not a success return, unless it hands on both results of another family method
+				if ex, isEx := ret.Results[1].(*ssa.Extract); isEx {
+					if c, isC := ex.Tuple.(*ssa.Call); isC {
+						for _, callee := range w.Callees[c] {
+							if fam[callee] {
+								k++
+								r.OK("R7.3", fmt.Sprintf("%s success return #%d", w.FuncName(fn), k), w.InstrPos(ret), "hands on the result of "+w.FuncName(callee))
+							}
+						}
+					}
+				}
+				return
+			}
+			if p, isK := ret.Results[0].(*ssa.Const); isK && p.IsNil() {
+				return
+			}
+			k++
+			key := fmt.Sprintf("%s success return #%d", w.FuncName(fn), k)
+			if ev := evidence(fn, ret.Block()); ev != "" {
+				r.OK("R7.3", key, w.InstrPos(ret), "under "+ev)
+				return
+			}
+			// deletion scheme: after the normal exit of a full-range loop whose every iteration re-solves, on a subset
+			// obtained from a family method whose error was checked
+			delegated := false
+			for _, ec := range dominatingConds(ret.Block()) {
+				if bo, isB := ec.Cond.(*ssa.BinOp); isB && bo.Op == token.NEQ && !ec.True && isNilConst(bo.Y) {
+					if ex, isEx := bo.X.(*ssa.Extract); isEx {
+						if c, isC := ex.Tuple.(*ssa.Call); isC {
+							for _, callee := range w.Callees[c] {
+								if fam[callee] {
+									delegated = true
+								}
+							}
+						}
+					}
+				}
+			}
+			afterSolveLoop := false
+			for _, h := range loopHeaders(fn) {
+				body := loopBlocks(fn, h)
+				if body[ret.Block()] || !h.Dominates(ret.Block()) {
+					continue
+				}
+				solves := false
+				for b := range body {
+					for _, i2 := range b.Instrs {
+						if c, isC := i2.(*ssa.Call); isC && typeShort(c.Type()) == "solver.Status" && dominatesLatches(h, b) {
+							solves = true
+						}
+					}
+				}
+				// left only through its header (the loop ran over every candidate)
+				onlyHeader := true
+				for b := range body {
+					if b == h {
+						continue
+					}
+					for _, s := range b.Succs {
+						if !body[s] {
+							onlyHeader = false
+						}
+					}
+				}
+				if solves && onlyHeader {
+					afterSolveLoop = true
+				}
+			}
+			if delegated && afterSolveLoop {
+				r.OK("R7.3", key, w.InstrPos(ret), "after a loop that re-solves for every clause of a subset obtained without error")
+				return
+			}
+			r.Bad("R7.3", key, w.InstrPos(ret), "a problem is returned without error although nothing on the way establishes that it is unsatisfiable (no status equal to Unsat, no minimisation returning -1, no valid certificate, not after a complete deletion loop): satisfiable inputs or non-minimal / satisfiable subsets can be returned as a MUS")
+		})
+	}
+}
